@@ -907,11 +907,16 @@ func ProcessAggregatedDependencyGraphs(ctx *fasthttp.RequestCtx, myid int64) {
 					processedData[service] = make(map[string]int)
 				}
 
-				serviceMap := processedData[service].(map[string]int)
-				if value != nil {
-					serviceMap[dependentService] += int(value.(float64))
+				// the index may hold documents that are no dependency graphs
+				serviceMap, ok := processedData[service].(map[string]int)
+				if !ok {
+					log.Warnf("MakeTracesDependancyGraph: key %s is not a pair of services", key)
+					continue
+				}
+				if count, ok := value.(float64); ok {
+					serviceMap[dependentService] += int(count)
 				} else {
-					log.Warnf("MakeTracesDependancyGraph: Value is nil, cannot convert to float64")
+					log.Warnf("MakeTracesDependancyGraph: Value %v is not a number, cannot convert to float64", value)
 				}
 			}
 		}
